@@ -1272,91 +1272,99 @@ class VM:
                 arr._elements.insert(i, arg)
             return arr.length
 
+        def arg(args, i):
+            """Argument i, or undefined when it was not passed."""
+            return args[i] if len(args) > i else UNDEFINED
+
+        def relative_index(value, default):
+            """A relative index argument: negative values count from the end, the
+            result is clamped to [0, length]; undefined means `default`."""
+            length = len(arr._elements)
+            if value is UNDEFINED:
+                return default
+            index = to_integer(value)
+            if index < 0:
+                return max(0, length + index)
+            return min(index, length)
+
+        def callback_of(args, name):
+            callback = arg(args, 0)
+            if not (isinstance(callback, JSFunction) or callable(callback)):
+                raise JSTypeError(f"{name} callback is not a function")
+            return callback
+
+        def visit(args, name):
+            """Call the callback for the elements present when the method started
+            (elements appended meanwhile are not visited, removed ones are skipped);
+            yields (index, element, callback result)."""
+            callback = callback_of(args, name)
+            this_arg = arg(args, 1)
+            length = len(arr._elements)
+            for i in range(length):
+                if i >= len(arr._elements):
+                    break
+                elem = arr._elements[i]
+                yield i, elem, vm._call_callback(callback, [elem, i, arr], this_arg)
+
         def array_elem_to_string(elem):
             # undefined and null convert to empty string in array join/toString
             if elem is UNDEFINED or elem is NULL:
                 return ""
+            if isinstance(elem, JSArray):
+                return ",".join(array_elem_to_string(e) for e in elem._elements)
             return to_string(elem)
 
         def toString_fn(*args):
             return ",".join(array_elem_to_string(elem) for elem in arr._elements)
 
         def join_fn(*args):
-            sep = "," if not args else to_string(args[0])
+            sep = "," if arg(args, 0) is UNDEFINED else to_string(args[0])
             return sep.join(array_elem_to_string(elem) for elem in arr._elements)
 
         def map_fn(*args):
-            callback = args[0] if args else None
-            if not callback:
-                return JSArray()
             result = JSArray()
-            result._elements = []
-            for i, elem in enumerate(arr._elements):
-                val = vm._call_callback(callback, [elem, i, arr])
-                result._elements.append(val)
+            result._elements = [val for _, _, val in visit(args, "map")]
             return result
 
         def filter_fn(*args):
-            callback = args[0] if args else None
-            if not callback:
-                return JSArray()
             result = JSArray()
-            result._elements = []
-            for i, elem in enumerate(arr._elements):
-                val = vm._call_callback(callback, [elem, i, arr])
-                if to_boolean(val):
-                    result._elements.append(elem)
+            result._elements = [
+                elem for _, elem, val in visit(args, "filter") if to_boolean(val)
+            ]
             return result
 
-        def reduce_fn(*args):
-            callback = args[0] if args else None
-            initial = args[1] if len(args) > 1 else UNDEFINED
-            if not callback:
-                raise JSTypeError("reduce callback is not a function")
-            acc = initial
-            start_idx = 0
-            if acc is UNDEFINED:
-                if not arr._elements:
+        def reduce_steps(args, name, indices):
+            callback = callback_of(args, name)
+            indices = list(indices)
+            if len(args) > 1:
+                acc = args[1]  # an explicit undefined is an initial value too
+            else:
+                if not indices:
                     raise JSTypeError("Reduce of empty array with no initial value")
-                acc = arr._elements[0]
-                start_idx = 1
-            for i in range(start_idx, len(arr._elements)):
-                elem = arr._elements[i]
-                acc = vm._call_callback(callback, [acc, elem, i, arr])
+                acc = arr._elements[indices.pop(0)]
+            for i in indices:
+                if i < len(arr._elements):
+                    acc = vm._call_callback(callback, [acc, arr._elements[i], i, arr])
             return acc
+
+        def reduce_fn(*args):
+            return reduce_steps(args, "reduce", range(len(arr._elements)))
 
         def reduceRight_fn(*args):
-            callback = args[0] if args else None
-            initial = args[1] if len(args) > 1 else UNDEFINED
-            if not callback:
-                raise JSTypeError("reduceRight callback is not a function")
-            acc = initial
-            length = len(arr._elements)
-            start_idx = length - 1
-            if acc is UNDEFINED:
-                if not arr._elements:
-                    raise JSTypeError("Reduce of empty array with no initial value")
-                acc = arr._elements[length - 1]
-                start_idx = length - 2
-            for i in range(start_idx, -1, -1):
-                elem = arr._elements[i]
-                acc = vm._call_callback(callback, [acc, elem, i, arr])
-            return acc
+            return reduce_steps(
+                args, "reduceRight", range(len(arr._elements) - 1, -1, -1)
+            )
 
         def splice_fn(*args):
-            start = to_integer(args[0]) if args else 0
-            delete_count = (
-                to_integer(args[1]) if len(args) > 1 else len(arr._elements) - start
-            )
-            items = list(args[2:]) if len(args) > 2 else []
-
             length = len(arr._elements)
-            if start < 0:
-                start = max(0, length + start)
+            start = relative_index(arg(args, 0), 0)
+            if len(args) == 0:
+                delete_count = 0
+            elif len(args) == 1:
+                delete_count = length - start
             else:
-                start = min(start, length)
-
-            delete_count = max(0, min(delete_count, length - start))
+                delete_count = max(0, min(to_integer(args[1]), length - start))
+            items = list(args[2:])
 
             # Create result array with deleted elements
             result = JSArray()
@@ -1370,69 +1378,59 @@ class VM:
             return result
 
         def forEach_fn(*args):
-            callback = args[0] if args else None
-            if not callback:
-                return UNDEFINED
-            for i, elem in enumerate(arr._elements):
-                vm._call_callback(callback, [elem, i, arr])
+            for _ in visit(args, "forEach"):
+                pass
             return UNDEFINED
 
+        def same_value_zero(a, b):
+            if is_nan(a) and is_nan(b):
+                return True
+            return vm._strict_equals(a, b)
+
         def indexOf_fn(*args):
-            search = args[0] if args else UNDEFINED
-            start = to_integer(args[1]) if len(args) > 1 else 0
-            if start < 0:
-                start = max(0, len(arr._elements) + start)
-            for i in range(start, len(arr._elements)):
+            search = arg(args, 0)
+            for i in range(relative_index(arg(args, 1), 0), len(arr._elements)):
                 if vm._strict_equals(arr._elements[i], search):
                     return i
             return -1
 
         def lastIndexOf_fn(*args):
-            search = args[0] if args else UNDEFINED
-            start = to_integer(args[1]) if len(args) > 1 else len(arr._elements) - 1
+            search = arg(args, 0)
+            length = len(arr._elements)
+            start = to_integer(args[1]) if len(args) > 1 else length - 1
             if start < 0:
-                start = len(arr._elements) + start
-            for i in range(min(start, len(arr._elements) - 1), -1, -1):
+                start = length + start
+            for i in range(min(start, length - 1), -1, -1):
                 if vm._strict_equals(arr._elements[i], search):
                     return i
             return -1
 
         def find_fn(*args):
-            callback = args[0] if args else None
-            if not callback:
-                return UNDEFINED
-            for i, elem in enumerate(arr._elements):
-                val = vm._call_callback(callback, [elem, i, arr])
-                if to_boolean(val):
+            callback = callback_of(args, "find")
+            this_arg = arg(args, 1)
+            for i in range(len(arr._elements)):
+                elem = arr._elements[i] if i < len(arr._elements) else UNDEFINED
+                if to_boolean(vm._call_callback(callback, [elem, i, arr], this_arg)):
                     return elem
             return UNDEFINED
 
         def findIndex_fn(*args):
-            callback = args[0] if args else None
-            if not callback:
-                return -1
-            for i, elem in enumerate(arr._elements):
-                val = vm._call_callback(callback, [elem, i, arr])
-                if to_boolean(val):
+            callback = callback_of(args, "findIndex")
+            this_arg = arg(args, 1)
+            for i in range(len(arr._elements)):
+                elem = arr._elements[i] if i < len(arr._elements) else UNDEFINED
+                if to_boolean(vm._call_callback(callback, [elem, i, arr], this_arg)):
                     return i
             return -1
 
         def some_fn(*args):
-            callback = args[0] if args else None
-            if not callback:
-                return False
-            for i, elem in enumerate(arr._elements):
-                val = vm._call_callback(callback, [elem, i, arr])
+            for _, _, val in visit(args, "some"):
                 if to_boolean(val):
                     return True
             return False
 
         def every_fn(*args):
-            callback = args[0] if args else None
-            if not callback:
-                return True
-            for i, elem in enumerate(arr._elements):
-                val = vm._call_callback(callback, [elem, i, arr])
+            for _, _, val in visit(args, "every"):
                 if not to_boolean(val):
                     return False
             return True
@@ -1440,22 +1438,18 @@ class VM:
         def concat_fn(*args):
             result = JSArray()
             result._elements = arr._elements[:]
-            for arg in args:
-                if isinstance(arg, JSArray):
-                    result._elements.extend(arg._elements)
+            for item in args:
+                if isinstance(item, JSArray):
+                    result._elements.extend(item._elements)
                 else:
-                    result._elements.append(arg)
+                    result._elements.append(item)
             return result
 
         def slice_fn(*args):
-            start = to_integer(args[0]) if args else 0
-            end = to_integer(args[1]) if len(args) > 1 else len(arr._elements)
-            if start < 0:
-                start = max(0, len(arr._elements) + start)
-            if end < 0:
-                end = max(0, len(arr._elements) + end)
+            start = relative_index(arg(args, 0), 0)
+            end = relative_index(arg(args, 1), len(arr._elements))
             result = JSArray()
-            result._elements = arr._elements[start:end]
+            result._elements = arr._elements[start:end] if start < end else []
             return result
 
         def reverse_fn(*args):
@@ -1463,12 +1457,9 @@ class VM:
             return arr
 
         def includes_fn(*args):
-            search = args[0] if args else UNDEFINED
-            start = to_integer(args[1]) if len(args) > 1 else 0
-            if start < 0:
-                start = max(0, len(arr._elements) + start)
-            for i in range(start, len(arr._elements)):
-                if vm._strict_equals(arr._elements[i], search):
+            search = arg(args, 0)
+            for i in range(relative_index(arg(args, 1), 0), len(arr._elements)):
+                if same_value_zero(arr._elements[i], search):
                     return True
             return False
 
@@ -1499,9 +1490,11 @@ class VM:
                     callable(comparator) or isinstance(comparator, JSFunction)
                 ):
                     result = vm._call_callback(comparator, [a, b])
-                    # Convert to integer for cmp_to_key
-                    num = to_number(result) if result is not UNDEFINED else 0
-                    return int(num) if isinstance(num, (int, float)) else 0
+                    # Only the sign of the result matters (NaN counts as equal)
+                    num = to_number(result)
+                    if is_nan(num) or num == 0:
+                        return 0
+                    return -1 if num < 0 else 1
                 return default_compare(a, b)
 
             # Sort using Python's sort with custom key
@@ -2347,11 +2340,17 @@ class VM:
             # Valid indices are integer strings in range [0, 2^32-2]
             try:
                 idx = int(key_str)
-                if idx >= 0 and str(idx) == key_str:
-                    obj.set_index(idx, value)
-                    return
-            except (ValueError, IndexError):
-                pass
+            except ValueError:
+                idx = -1
+            if idx >= 0 and str(idx) == key_str:
+                if idx > len(obj._elements):
+                    # Stricter mode: no holes - only index == length may append
+                    raise JSTypeError(
+                        f"Cannot set index {idx} beyond the end of an array of length "
+                        f"{len(obj._elements)}"
+                    )
+                obj.set_index(idx, value)
+                return
             # If key looks like a number but isn't a valid integer index, throw
             # This includes NaN, Infinity, -Infinity, floats like "1.2"
             invalid_keys = ("NaN", "Infinity", "-Infinity")
